@@ -42,10 +42,10 @@ theorem evOnSignal_ind (P : State → Prop)
   | cons a as ih =>
     refine ih _ (act_inv s1 l a h1) ?_
     cases a with
-    | enable j => simp only [act]; split <;> first | exact hEn s1 j h1 hp1 | exact hp1
-    | disable j => simp only [act]; split <;> first | exact hDis s1 j h1 hp1 | exact hp1
-    | destroy j => simp only [act]; split <;> first | exact hDes s1 j h1 hp1 | exact hp1
-    | init j sg o => simp only [act]; split <;> first | exact hInit s1 j _ o h1 hp1 | exact hp1
+    | enable j => exact hEn s1 j h1 hp1
+    | disable j => exact hDis s1 j h1 hp1
+    | destroy j => exact hDes s1 j h1 hp1
+    | init j sg o => exact hInit s1 j _ o h1 hp1
 
 /-! ### baseDisp -/
 
@@ -118,13 +118,22 @@ theorem baseDisp_pass (s : State) (l : Nat) (ord : List Nat) (g : Nat) (h : Inv 
       (fun g0 s2 e h2 hm hp => by rw [baseDisp_evOnSignal s2 l e g0 g h2 hm]; exact hp) s1 items h1 hp1)
     (fun _ _ hp => hp) _ s h rfl).2
 
-theorem baseDisp_raise (s : State) (g' g : Nat) : baseDisp (raise s g').1 g = baseDisp s g := by
-  unfold raise
+theorem baseDisp_raiseW (s : State) (g' g : Nat) (wf : List Nat) : baseDisp (raiseW s g' wf).1 g = baseDisp s g := by
+  unfold raiseW
   split
   · rfl
   · rfl
   · rfl
   · exact baseDisp_touchCtx s g' g
+
+theorem baseDisp_raise (s : State) (g' g : Nat) : baseDisp (raise s g').1 g = baseDisp s g := baseDisp_raiseW s g' g []
+
+theorem baseDisp_passC (s : State) (l : Nat) (ord : List Nat) (cs : List (Option Nat)) (g : Nat) (h : Inv s) :
+    baseDisp (passC repaired s l ord cs) g = baseDisp s g :=
+  (passLoopC_ind l ord (fun s' => baseDisp s' g = baseDisp s g)
+    (fun s1 items h1 hp1 => passChunk_ind l ord (fun s' => baseDisp s' g = baseDisp s g)
+      (fun g0 s2 e h2 hm hp => by rw [baseDisp_evOnSignal s2 l e g0 g h2 hm]; exact hp) s1 items h1 hp1)
+    (fun _ _ hp => hp) _ cs s h rfl).2
 
 /-- the only step that changes the disposition underneath tbox's handler is the user's own `sigaction` -/
 theorem baseDisp_step (s : State) (op : Op) (g : Nat) (h : Inv s) (hu : ∀ d, op ≠ .setDisp g d) :
@@ -143,6 +152,9 @@ theorem baseDisp_step (s : State) (op : Op) (g : Nat) (h : Inv s) (hu : ∀ d, o
     · unfold baseDisp fdsOf ctxOf; simp only [upd_apply, hne, ↓reduceIte]
   | raise g' => exact baseDisp_raise s g' g
   | pass l ord => exact baseDisp_pass s l ord g h
+  | raiseW g' wf => exact baseDisp_raiseW s g' g wf
+  | passC l ord cs => exact baseDisp_passC s l ord cs g h
+  | setCap b => rfl
 
 theorem baseDisp_exec (s : State) (ops : List Op) (g : Nat) (h : Inv s) (hu : ∀ d, Op.setDisp g d ∉ ops)
     (s' : State) (he : exec repaired s ops = some s') : baseDisp s' g = baseDisp s g := by
@@ -512,5 +524,135 @@ theorem cbCount_passes (g : Nat) (ls : List (Nat × List Nat)) (s : State) (h : 
         have hmemls : (s.evs e).loop ∈ List.map (·.1) ((l, ord) :: ls) ↔ (s.evs e).loop ∈ List.map (·.1) ls := by
           simp [hl]
         simp only [hnot, and_false, ↓reduceIte, Nat.add_zero, hev, hpipe, hmemls]
+
+/-! ### round 4: bursts (several deliveries without a loop pass), pipe capacity, `read()` answers -/
+
+theorem capOf_pos (s : State) : 0 < capOf s := by unfold capOf; split <;> omega
+
+/-- n deliveries of g in a row, no loop pass in between, every write answered by the real pipe -/
+def raises (s : State) (g : Nat) : Nat → State
+  | 0 => s
+  | n + 1 => raises (raise s g).1 g n
+
+theorem raise_os (s : State) (g : Nat) : (raise s g).1.os = s.os := by
+  unfold raise raiseW; split <;> rfl
+
+theorem raise_small (s : State) (g : Nat) : (raise s g).1.small = s.small := by
+  unfold raise raiseW; split <;> rfl
+
+theorem raise_fdsOf (s : State) (g g' : Nat) : fdsOf (raise s g).1 g' = fdsOf s g' := by
+  unfold raise raiseW; split
+  · rfl
+  · rfl
+  · rfl
+  · exact fdsOf_touchCtx s g g'
+
+theorem raise_pipe (s : State) (g l : Nat) :
+    (raise s g).1.pipe l =
+      if (s.os g).kind = .tbox ∧ l ∈ fdsOf s g ∧ (s.pipe l).length < capOf s then s.pipe l ++ [g] else s.pipe l := by
+  unfold raise raiseW
+  split <;> rename_i hk
+  · simp [hk]
+  · simp [hk]
+  · simp [hk]
+  · show appendPipes s.pipe g ((ctxOf s g).fds.filter (wrOk s [])) l = _
+    simp only [appendPipes, List.mem_filter, wrOk, List.contains_eq_mem, List.not_mem_nil, decide_false, Bool.not_false,
+      Bool.true_and, decide_eq_true_eq, hk, true_and]
+    rfl
+
+/-- **the pipes after a burst**: starting with `k` pending copies of g in the pipe of every subscribed loop, n more
+deliveries leave `min (k + n) capacity` of them: what does not fit is dropped by the handler (EAGAIN, result ignored) -/
+theorem raises_pipe (g n : Nat) (s : State) (k : Nat)
+    (l : Nat)
+    (hp : s.pipe l = List.replicate (if (s.os g).kind = .tbox ∧ l ∈ fdsOf s g then min k (capOf s) else 0) g) :
+    (raises s g n).pipe l =
+      List.replicate (if (s.os g).kind = .tbox ∧ l ∈ fdsOf s g then min (k + n) (capOf s) else 0) g := by
+  induction n generalizing s k with
+  | zero => exact hp
+  | succ n ih =>
+    show (raises (raise s g).1 g n).pipe l = _
+    have hcap : capOf (raise s g).1 = capOf s := by unfold capOf; rw [raise_small]
+    have := ih (raise s g).1 (k + 1) (by
+      rw [raise_pipe, raise_os, raise_fdsOf, hcap, hp]
+      by_cases hA : (s.os g).kind = .tbox ∧ l ∈ fdsOf s g
+      · simp only [hA, and_self, ↓reduceIte, List.length_replicate, true_and]
+        by_cases hlt : min k (capOf s) < capOf s
+        · simp only [hlt, ↓reduceIte]
+          have : min (k + 1) (capOf s) = min k (capOf s) + 1 := by omega
+          rw [this, List.replicate_succ']
+        · simp only [hlt, ↓reduceIte]
+          have : min (k + 1) (capOf s) = min k (capOf s) := by omega
+          rw [this]
+      · have hA' : ¬ ((s.os g).kind = .tbox ∧ l ∈ fdsOf s g ∧ (List.replicate 0 g).length < capOf s) :=
+          fun hh => hA ⟨hh.1, hh.2.1⟩
+        simp only [hA, ↓reduceIte, hA'])
+    rw [this, raise_os, raise_fdsOf, hcap]
+    have : k + 1 + n = k + (n + 1) := by omega
+    rw [this]
+
+/-- a burst is an ordinary history: n `raise g` ops -/
+theorem exec_raises (g n : Nat) (s : State) : exec repaired s (List.replicate n (Op.raise g)) = some (raises s g n) := by
+  induction n generalizing s with
+  | zero => rfl
+  | succ n ih => simp only [List.replicate_succ, exec, valid, ↓reduceIte]; exact ih _
+
+theorem exec_foldl (fx : Fixes) (ops : List Op) (s : State) (h : (exec fx s ops).isSome = true) :
+    exec fx s ops = some (ops.foldl (step fx) s) := by
+  induction ops generalizing s with
+  | nil => rfl
+  | cons op ops ih =>
+    simp only [exec] at h ⊢
+    split
+    · rename_i hv; simp only [hv, ↓reduceIte] at h; exact ih _ h
+    · rename_i hv; simp [hv] at h
+
+/-- with answers that are all data (no error) and more fuel than pending numbers the read loop ends by its own
+condition: the pipe is closed or empty -/
+theorem passLoopC_drains (l : Nat) (ord : List Nat) (fuel : Nat) (cs : List (Option Nat)) (s : State) (h : Inv s)
+    (hcs : ∀ c ∈ cs, c ≠ none) (hf : (s.pipe l).length < fuel) :
+    (passLoopC repaired l ord cs fuel s).hasPipe l = false ∨ (passLoopC repaired l ord cs fuel s).pipe l = [] := by
+  induction fuel generalizing s cs with
+  | zero => omega
+  | succ n ih =>
+    have hpos : 0 < nextLen cs := by
+      unfold nextLen
+      cases cs with
+      | nil => simp
+      | cons c r =>
+        cases c with
+        | none => exact absurd rfl (hcs none List.mem_cons_self)
+        | some c => simp only [chunkLen]; omega
+    unfold passLoopC
+    by_cases hpipe : s.hasPipe l = true
+    · simp only [hpipe, Bool.not_true, Bool.false_eq_true, ↓reduceIte]
+      split
+      · rename_i hnil; right; exact hnil
+      · rename_i hne
+        have hn0 : ¬ nextLen cs = 0 := by omega
+        simp only [hn0, ↓reduceIte]
+        have h1 := setPipe_inv s l ((s.pipe l).drop (nextLen cs)) h hpipe
+        refine ih _ _ (passChunk_inv _ l ord _ h1) (fun c hc => hcs c (List.mem_of_mem_tail hc)) ?_
+        have hlen : ((s.pipe l).drop (nextLen cs)).length < n := by
+          have : (s.pipe l).length ≠ 0 := by
+            intro h0; exact hne (List.length_eq_zero_iff.1 h0)
+          rw [List.length_drop]; omega
+        rcases pipeMono_passChunk _ l ord ((s.pipe l).take (nextLen cs)) h1 l with hm | hm
+        · rw [hm]; simpa using hlen
+        · rw [hm]; simp only [List.length_nil]; omega
+    · left; simp only [hpipe, Bool.not_false, ↓reduceIte]
+
+/-- without injected answers `passC` is `pass` -/
+theorem passLoopC_nil (fx : Fixes) (l : Nat) (ord : List Nat) (fuel : Nat) (s : State) :
+    passLoopC fx l ord [] fuel s = passLoop fx l ord fuel s := by
+  induction fuel generalizing s with
+  | zero => unfold passLoopC passLoop; rfl
+  | succ n ih =>
+    unfold passLoopC passLoop
+    split
+    · rfl
+    · split
+      · rfl
+      · simp only [nextLen, List.tail_nil]
+        exact ih _
 
 end Tbox.C04
